@@ -60,6 +60,8 @@ func init() {
 }
 
 func runC20(c *Ctx, r *Report) {
+	r.Rule("C20/waitgroup-local", "every WaitGroup of the library belongs to one call (the consumer and the reader goroutine both log while they use the queue)", 1)
+	checkWaitGroupAddBeforeGo(c, r, "C20/waitgroup-local")
 	r.Rule("C20/readall-drains", "Channel.ReadAll takes everything that is queued unless it received an error from the reader", 1)
 	checkReadAllDrains(c, r, "C20/readall-drains")
 	importFoundation(c, r, "C20", "read-loop")
